@@ -80,7 +80,14 @@ def _store_view(st):
     return view
 
 
+RACE_SCN = {"store": "warm-first", "shape": "batch-forget", "backend": "fs", "threads": 2}
+RACE_WHAT = 'call_batch([memoized, new]) while another thread forgets the memoized element'
+
+
 def execute(case, scratch):
+    if case.get("kind") == "race":
+        from checks import c09
+        return c09.execute_race(case, scratch, RACE_WHAT)
     out = core.Outcome()
     d = env.fresh_dir(scratch, "c15-")
     try:
@@ -251,6 +258,11 @@ def strategy():
 
 def run_shard(ctx):
     stats = core.Stats()
+    # race family: every one-preemption interleaving (every 3rd yield point in quick) under C09's deterministic scheduler
+    from checks import c09
+    core.enum_search(c09.race_family(RACE_SCN, ctx.scratch, 1 if ctx.tier == "thorough" else 3), lambda c: execute(c, ctx.scratch), stats,
+                     findings=ctx.findings, shard=ctx.shard, nshards=ctx.nshards,
+                     deadline_s=max((ctx.deadline - time.time()) * 0.35, 5) if ctx.deadline else None)
     n = 30000 if ctx.tier == "thorough" else 600
     core.hyp_search(strategy(), lambda c: execute(c, ctx.scratch), stats, max_examples=n,
                     seed=core.hash64(ctx.seed, ID, ctx.shard), findings=ctx.findings,
